@@ -33,6 +33,11 @@ class FaultyWorld(world.World):
         return [d]
 
     def net_up(self, msg):
+        if getattr(self, "blackout", None) == "up" and self.faulty_until is not None and self.ms < self.faulty_until:
+            self.stats["dropped"] += 1
+            return []
+        if getattr(self, "blackout", None) == "down":
+            return [1]
         return self._net()
 
     def route_up(self, msg):
@@ -51,6 +56,11 @@ class FaultyWorld(world.World):
         super().route_up(msg)
 
     def net_down(self, msg):
+        if getattr(self, "blackout", None) == "down" and self.faulty_until is not None and self.ms < self.faulty_until:
+            self.stats["dropped"] += 1
+            return []
+        if getattr(self, "blackout", None) == "up":
+            return [1]
         return self._net()
 
 
@@ -121,6 +131,34 @@ def one_world(args):
         if cfg["raw_mode"] and not real_z:
             # send_raw cuts a frame at 4096 bytes; the real zlib then refuses the cut image, the transparent test compression would not
             sizes = [n for n in sizes if n <= 3000]
+        if scenario == "blackout":
+            # every datagram in ONE direction is lost while `n` packets are offered on the sending side (each is given up after its resends), for
+            # less than the 60 s session timeout; then the path is clean and six packets are offered one after the other
+            w.blackout = cfg["blackout"]["dir"]
+            w.faulty_until = w.ms + 10 ** 9
+            t_black = w.ms
+            for i in range(cfg["blackout"]["n"]):
+                if w.ms - t_black > 50000:
+                    break
+                if w.blackout == "up":
+                    f = frame_to_server_side(rng, 100); sent_c.append((w.ms, f)); w.offer_to_client(f)
+                else:
+                    f = frame_to_client(rng, 100); sent_s.append((w.ms, f)); w.offer_to_server(f)
+                t_end = w.ms + cfg["blackout"]["gap"]
+                w.pump_tun(); w.run_until(lambda: w.ms >= t_end, cfg["blackout"]["gap"]); w.pump_tun()
+            w.faulty_until = w.ms
+            out["clean_at"] = w.ms
+            out["blackout_ms"] = w.ms - t_black
+            w.settle(8000)
+            late_c, late_s = [], []
+            for i in range(6):
+                if w.blackout == "up":
+                    f = frame_to_server_side(rng, 100); late_c.append((w.ms, f)); sent_c.append((w.ms, f)); w.offer_to_client(f)
+                else:
+                    f = frame_to_client(rng, 100); late_s.append((w.ms, f)); sent_s.append((w.ms, f)); w.offer_to_server(f)
+                w.settle(6000)
+            out["late_c"], out["late_s"] = late_c, late_s
+            nframes = 0
         if scenario == "fullsize":
             # full-length queries going up while full-size fragments come down: what the fragment-size probe promised must hold then too
             for i in range(3):
